@@ -172,7 +172,8 @@ def run_history(h):
         return out
 
     def res_key(r):
-        return sorted((x.name, x.id, q) for x, q in r._resource_vector.items())
+        # order-sensitive: BatchStrategy copies the Resources entry by entry, in order
+        return [(x.name, x.id, q) for x, q in r._resource_vector.items()]
 
     world_strats = {p["mid"]: p["strategies"] for p in h["world"]}
     steps = []
@@ -229,8 +230,8 @@ def run_history(h):
                         wp = worker_pools.get_worker_pool(p.worker_pool_id)
                         try:
                             ok = wp.place_task(p.task, execution_strategy=p.execution_strategy, worker_id=p.worker_id)
-                        except ValueError:
-                            ok = False
+                        except (ValueError, RuntimeError):
+                            ok = False        # the live cluster refused (only possible when schedule() itself touched it)
                         if ok:
                             p.task.start(now)
                         rec.setdefault("live_place", []).append([tid_of[p.task.id], bool(ok)])
